@@ -1,6 +1,7 @@
 import PewProofs.Filters
 import PewProofs.FiltersFloat
 import PewProofs.FiltersArith
+import PewProofs.FiltersPads
 
 /-! # C13 — property theorems (statements only depend on `PewModel.Filters`) -/
 namespace Pew.Filters
@@ -408,6 +409,60 @@ theorem unchanged_clause2 (h0 h1 n1 : Nat) (t : Option Rat) (x : List (List Rat)
 
 example : mustBeUnchanged (some 3) ([[1 / 10, 1 / 10, 1 / 10], [1 / 10, 1 / 10, 1 / 10]] : List (List Rat)).flatten = true := by
   decide +kernel
+
+/-! ## interior pixels do not depend on how the border is padded
+
+`np.pad` rounds the pad values of an integer image to integers (half to even) before the windows are
+cut; the model's `meanCellsP*` / `medianCellsP*` take the pad statistic as a parameter (`π = rint ∘ mean`
+for integer images; `meanCells*` / `medianCells*` are the instances with the exact statistic).  Whatever
+the pad statistic, the cell of an interior pixel is the cell of the definition. -/
+
+theorem cells_are_P (b b0 b1 : Nat) (x : List Rat) (y : List (List Rat)) :
+    meanCells1 b x = meanCellsP1 mean b x ∧ meanCells2 b0 b1 y = meanCellsP2 mean b0 b1 y ∧
+    medianCells1 b x = medianCellsP1 median median b x ∧
+    medianCells2 b0 b1 y = medianCellsP2 median median b0 b1 y := ⟨rfl, rfl, rfl, rfl⟩
+
+theorem interior_any_pad_mean1 (π : List Rat → Rat) (h : Nat) (x : List Rat) (i : Nat)
+    (hi : h ≤ i) (hn : i + h < x.length) :
+    (meanCellsP1 π (2 * h + 1) x)[i]? = some (specMeanCell1 h x i) := by
+  have hlt : i < x.length := by omega
+  have hw : slice i (2 * h + 1) (pad1 π h x) = slice (i - h) (2 * h + 1) x :=
+    slice_padEnds_interior h (2 * h + 1) i _ _ x hi (by omega)
+  unfold meanCellsP1
+  rw [getElem?_cellsG1 π _ h x i hlt, hw, half_odd, slice_centre h i x hi hlt,
+    eraseIdx_centre _ _ _ h (slice_length_of_le _ _ _ (by omega))]
+  simp [specMeanCell1, meanCell, at1_eq x i hlt]
+
+theorem interior_any_pad_mean2 (π : List Rat → Rat) (h0 h1 n1 : Nat) (x : List (List Rat)) (i j : Nat)
+    (hrect : ∀ r ∈ x, r.length = n1)
+    (hi : h0 ≤ i) (hn : i + h0 < x.length) (hj : h1 ≤ j) (hm : j + h1 < n1) :
+    ((meanCellsP2 π (2 * h0 + 1) (2 * h1 + 1) x)[i]?).bind (fun r => r[j]?)
+      = some (specMeanCell2 h0 h1 x i j) := by
+  unfold meanCellsP2
+  rw [getElem?_cellsG2 π _ h0 h1 n1 x hrect i j (by omega) (by omega), half_odd, half_odd,
+    window2_interior π h0 h1 i j n1 x hrect hi hn hj hm,
+    maskCentre2_interior h0 h1 i j n1 x hrect hi hn hj hm]
+  rfl
+
+/-- the rounded pad of an integer image: the window of pixel 1 of `[1, 2, 4, 7, 5, 3]` (window 5) starts
+with the pad value `rint (3/2) = 2`, the exact model has `3/2` there; pixel 2 sees neither -/
+example : (slice 1 5 (pad1 (fun l => rint (mean l)) 2 [1, 2, 4, 7, 5, 3])).head? = some 2 ∧
+    (slice 1 5 (pad1 mean 2 [1, 2, 4, 7, 5, 3])).head? = some (3 / 2) ∧
+    rint (5 / 2) = 2 ∧ rint (7 / 2) = 4 ∧ rint (-5 / 2) = -2 := by decide +kernel
+
+theorem interior_any_pad_median1 (π1 π2 : List Rat → Rat) (h : Nat) (x : List Rat) (i : Nat)
+    (hi : 2 * h ≤ i) (hn : i + 2 * h < x.length) :
+    (medianCellsP1 π1 π2 (2 * h + 1) x)[i]? = some (specMedianCell1 h x i) :=
+  medianCellsP1_interior π1 π2 h i x hi hn
+
+theorem interior_any_pad_median2 (π1 π2 : List Rat → Rat) (h0 h1 n1 : Nat) (x : List (List Rat)) (i j : Nat)
+    (hrect : ∀ r ∈ x, r.length = n1)
+    (hi : 2 * h0 ≤ i) (hn : i + 2 * h0 < x.length) (hj : 2 * h1 ≤ j) (hm : j + 2 * h1 < n1) :
+    ((medianCellsP2 π1 π2 (2 * h0 + 1) (2 * h1 + 1) x)[i]?).bind (fun r => r[j]?)
+      = some (specMedianCell2 h0 h1 x i j) :=
+  medianCellsP2_interior π1 π2 h0 h1 i j n1 x hrect hi hn hj hm
+
+example : 2 * 1 ≤ 2 ∧ 2 + 2 * 1 < ([3, 1, 4, 1, 5] : List Rat).length := by decide
 
 /-! ## the constant clause for every arithmetic
 
